@@ -388,6 +388,9 @@ class CollectionManifest(BaseCollectionManifest):
     def to_picklist(self):
         "Convert this manifest to a picklist."
         pl = picklist.SignaturePicklist("manifest")
+        # this picklist stands for the rows themselves: compare the full (name, md5),
+        # not the (identifier, md5[:8]) a manifest CSV given by a user is matched on.
+        pl.preprocess_fn = lambda x: x
 
         pl.pickset = {pl._get_value_for_manifest_row(row) for row in self.rows}
 
